@@ -16,7 +16,7 @@ ID = "C37"
 LEVEL = "exploration"
 WATCHDOG_S = 30.0
 NSHARDS = 64
-NROWS = {"quick": 4, "thorough": 6}
+NROWS = {"quick": 4, "thorough": 5}
 ASSUMPTIONS = [
     "sync scheduler; pyarrow stand-in (object-dtype strings); pandas 3.0.5 on the whole frame is the reference",
     "a case where pandas itself raises is inapplicable (dask is then not run); NotImplementedError from dask is a documented refusal (counted)",
@@ -40,7 +40,7 @@ def RULE(tier):
     else:
         parts = f"every split of the {n} rows into <= 4 consecutive partitions incl. empty ones"
         se = "split_every in {2,3,False,None} for every partitioning"
-        idx = "RangeIndex and unsorted index (idxmin/idxmax/nlargest/nsmallest: all 5 index kinds)"
+        idx = "RangeIndex (frame 'num' also with an unsorted index = unknown divisions; idxmin/idxmax/nlargest/nsmallest: all 5 index kinds)"
     return (
         f"8 frames of {n} rows (int, float+NaN, two float+NaN, bool, str, datetime, categorical, nullable Int64 columns) x target (whole frame, each "
         "distinctive column) x {sum,prod,min,max,mean,var,std,sem} x axis {0,1} x skipna x numeric_only (+ddof=0, min_count=1); count; any/all; "
@@ -83,10 +83,11 @@ def programs(tier):
     """-> list of (frame, index_kind, target, op, kwargs, uses_split_every)"""
     n = NROWS[tier]
     out = []
-    base_idx = ("range",) if tier == "quick" else ("range", "unsorted")
     lab_idx = ("range", "unsorted") if tier == "quick" else dfh.INDEX_KINDS  # "unsorted" also has duplicate labels
     ns = (1, 2) if tier == "quick" else (1, 2, 3, n, n + 1)
     for fname in FRAME_ORDER:
+        # label-independent reductions: RangeIndex (known divisions); thorough adds an unsorted index (unknown divisions) for "num"
+        base_idx = ("range", "unsorted") if tier == "thorough" and fname == "num" else ("range",)
         # ---------------- whole frame
         for ik in base_idx:
             P = lambda op, k, se=True: out.append((fname, ik, "df", op, k, se))  # noqa: E731
@@ -130,10 +131,11 @@ def programs(tier):
                         if ik == "range":  # axis=1 returns column labels: independent of the row index
                             P(op, kw(axis=1, skipna=skipna, numeric_only=numeric_only), False)
             distinctive = SERIES_COLS[fname][-1]
-            for op in ("nlargest", "nsmallest"):
-                for k in ns:
-                    for cols in ("a", ("g", distinctive)) if tier == "quick" else ("a", ("g", "a"), distinctive, ("g", distinctive)):
-                        P(op, kw(n=k, columns=cols))
+            if tier == "quick" or ik in ("range", "sorted_dup", "unsorted"):
+                for op in ("nlargest", "nsmallest"):
+                    for k in ns if tier == "quick" else (1, 2, n + 1):
+                        for cols in ("a", ("g", distinctive)) if tier == "quick" else ("a", ("g", "a"), distinctive, ("g", distinctive)):
+                            P(op, kw(n=k, columns=cols))
         # ---------------- one column
         for col in SERIES_COLS[fname]:
             for ik in base_idx:
